@@ -16,7 +16,7 @@ class Pool(object):
 
     TEXT = """\
 enum E { E_A = 0, E_B = 5, E_C = 0xFFFFFFFF };
-enum E1 { E1_A = 1, E1_B = 2 };
+enum E1 { E1_A = 1, E1_C = 3, E1_B = 2 };
 struct F8 { u8 a; };
 struct F16 { u8 a; u16 b; };
 struct F64 { u32 a; u64 b; u8 c; };
@@ -43,7 +43,7 @@ typedef F64 TF64;
             t[n] = W.Int(s, bool(sg))
         t['r32'], t['r64'] = W.Float(4), W.Float(8)
         t['E'] = W.Enum('E', [('E_A', 0), ('E_B', 5), ('E_C', 0xFFFFFFFF)])
-        t['E1'] = W.Enum('E1', [('E1_A', 1), ('E1_B', 2)])
+        t['E1'] = W.Enum('E1', [('E1_A', 1), ('E1_C', 3), ('E1_B', 2)])   # gapless, not in ascending order
         t['F8'] = W.Struct('F8', [W.Field('a', u8)])
         t['F16'] = W.Struct('F16', [W.Field('a', u8), W.Field('b', u16)])
         t['F64'] = W.Struct('F64', [W.Field('a', u32), W.Field('b', u64), W.Field('c', u8)])
